@@ -56,6 +56,10 @@ CHECKS = {
    technique="deterministic simulation: seeded histories of add_field / start_update / commit steps with uses of the intermediate class in between, compared with the one-piece declaration (layout signature incl. generated reader source, and behaviour on inputs)",
    text="Seeded search over (field sequences from the full generator, optional pointer-to-self, align, compiled; splits into single adds and batches, extra commits, and parse/default/dumps/len/== uses of the intermediate class between steps so that cached sizes, generated methods and compiled readers of intermediate states are live). Three routes must agree: the parser's pre-register/extend/commit path for top-level structs, the one-piece typedef struct, and the add_field history: identical layout signature (size, alignment, dynamic, compiled flag, fields, offsets, generated reader source) and identical behaviour (parse values and sizes, consumed bytes, dumps, default instance, ==, hash, bool, errors on truncated input).",
    note="Trusts: anonymous type names normalised; instances created from intermediate classes not constrained; route B skipped for self-referential cases."),
+ "C13": dict(engine="E-LOAD", cat="exploration", ref="4.6",
+   technique="deterministic simulation: seeded histories of load()/add_type() calls on the persistent typedef and constant tables (dependency-respecting reorderings, groupings into several load() calls, alias re-declarations, cyclic/dangling alias chains with a bounded-progress check) compared with the canonical single-load history; comment/white-space noise as payload",
+   text="Seeded search over (3-10 definition fragments with a dependency DAG; perturbed history = random topological order x random grouping into load() calls x noise at token boundaries x alias operations between loads). The world built by the perturbed history (layout signatures, enum members, constants, parse behaviour on sample inputs, identity of all aliases) must equal the canonical world; every declared name must resolve; all names of one typedef struct and all built-in synonyms must be the very same type object; re-declaring an alias is accepted for the same target under any spelling and rejected otherwise without changing the table; cyclic and dangling aliases must produce ResolveError (through resolve, attribute access, sizeof and field use) within 5 s. One recorded known finding (newline inside an enum member) is recognised by re-running without those newlines.",
+   note="Trusts: canonical single-load history as reference (differential); noise is never placed inside brackets, on #define lines or between a field name and '['; anonymous type names normalised."),
 }
 PENDING = {'C05': 'check not built yet in this revision (planned engine, DESIGN 4); not claimed until its check exists', 'C09': 'check not built yet in this revision (planned engine, DESIGN 4); not claimed until its check exists', 'C10': 'check not built yet in this revision (planned engine, DESIGN 4); not claimed until its check exists', 'C11': 'check not built yet in this revision (planned engine, DESIGN 4); not claimed until its check exists', 'C13': 'check not built yet in this revision (planned engine, DESIGN 4); not claimed until its check exists', 'C14': 'check not built yet in this revision (planned engine, DESIGN 4); not claimed until its check exists', 'C15': 'check not built yet in this revision (planned engine, DESIGN 4); not claimed until its check exists', 'C16': 'check not built yet in this revision (planned engine, DESIGN 4); not claimed until its check exists', 'C17': 'check not built yet in this revision (planned engine, DESIGN 4); not claimed until its check exists', 'C18': 'check not built yet in this revision (planned engine, DESIGN 4); not claimed until its check exists'}
 
